@@ -614,6 +614,14 @@ def post_io(props_kind):
         out, block = [], []
         for c in cases:
             (sname, lhs, rhs, mo, o, t) = c
+            if lhs.startswith("X "):
+                # the preceding line's stream holds a complete message that is malformed in content
+                if block and props_kind == "C10":
+                    (sn, l, r, m, oo, tt) = block[-1]
+                    outs_ = [x for x in oo.get("outs", []) if x != "read"]
+                    if not outs_ or not outs_[0].startswith("parse"):
+                        out.append((sn, l, r, m, f"the stream starts with a complete message that is malformed in content, but recv answered {outs_[:1]} instead of a parse error (it kept asking for more input)"))
+                continue
             if lhs.startswith("W "):
                 want = rhs.split(",") if rhs not in ("", "-") else []
                 stream = lhs.split(" ")[3]
@@ -806,7 +814,7 @@ PROPS = {
     "C07": dict(module="FV.Props.C07", theorems=["FV.Props.C07_sender_delivers", "FV.Props.C07_receiver_delivers"], suites=["io"], proj=proj_C07, oracle=oracle_io_basic, post=post_io("C07")),
     "C08": dict(module="FV.Props.C08", theorems=["FV.Props.C08_sender_refines_blocking"], suites=["aio"], proj=proj_C08, oracle=oracle_io_basic, post=post_io("C08")),
     "C09": dict(module="FV.Props.C09", theorems=["FV.Props.C09_send_fault"], suites=["io", "aio"], proj=proj_C09, oracle=oracle_io_basic, post=post_io("C09")),
-    "C10": dict(module="FV.Props.C10", theorems=["FV.Props.C10_recv_never_faults"], suites=["io", "aio"], proj=proj_C10, oracle=oracle_io_basic, post=post_io("C10")),
+    "C10": dict(module="FV.Props.C10", theorems=["FV.Props.C10_recv_never_faults", "FV.Props.C10_flex_bad_offset_is_content_error"], suites=["io", "aio"], proj=proj_C10, oracle=oracle_io_basic, post=post_io("C10")),
     "C16": dict(module="FV.Props.C16", theorems=["FV.Props.C16_size", "FV.Props.C16_byte_order", "FV.Props.C16_native_roundtrip", "FV.Props.C16_bytes_roundtrip", "FV.Props.C16_eq_iff", "FV.Props.C16_delegates", "FV.Props.C16_bool_validate"], suites=["portable"], proj=proj_C16, oracle=oracle_C16),
     "C17": dict(module="FV.Props.C17", theorems=["FV.Props.C17_align_one", "FV.Props.C17_no_padding"], suites=["emplace", "bytes"], proj=proj_C17, oracle=oracle_C17, post=post_C17),
     "C19": dict(module="FV.Props.C19", theorems=["FV.Props.C19_bool", "FV.Props.C19_tag", "FV.Props.C19_fields", "FV.Props.C19_array", "FV.Props.C19_vec_elems"], suites=["bytes"], proj=proj_C19, oracle=oracle_C19),
